@@ -17,7 +17,7 @@ PY
   [ -z "$id" ] && { echo "$n: (no catching check recorded)"; continue; }
   W=$(mktemp -d /tmp/regress.XXXXXX)
   git -C /repo worktree add --detach "$W" HEAD >/dev/null 2>&1
-  if git -C "$W" apply "$d/patch.diff" 2>/dev/null; then
+  if git -C "$W" apply "$ROOT/$d/patch.diff" 2>/dev/null; then
     out=$(VERIF_OUT="$ROOT/.build/regress-out" VERIF_REPO="$W" ./check $id quick 2>&1); rc=$?
     echo "$n: $id rc=$rc $(echo "$out" | grep -c '^VIOLATION') violation lines"
   else echo "$n: patch does not apply"; fi
